@@ -313,6 +313,33 @@ def run(tier, seed):
             if why:
                 viol.append({"world": "stale-member%d" % i, "names": names, "failing": victim, "mode": mode, "why": "; ".join(why), "klass": None})
             shutil.rmtree(base, ignore_errors=True)
+        # (d4a18a3) --links follow: two followed links (or one, next to a cp -al snapshot) over destination names that share an inode
+        for i in range(2 if tier == "quick" else 6):
+            base = os.path.join(sc.dir, "fl%d" % i)
+            src, dst = base + "/src", base + "/dst"
+            os.makedirs(src); os.makedirs(dst)
+            for q, nm in enumerate(("ra", "rb")):
+                with open(os.path.join(src, nm), "wb") as f:
+                    f.write(world.pbytes(4700 + 2 * i + q, [30, 90000][i % 2] + q))
+                os.symlink(nm, os.path.join(src, "l" + nm[1]))
+            with open(dst + "/la", "wb") as f:
+                f.write(b"old copy")
+            os.utime(dst + "/la", ns=((world.T0 + 100) * 10**9,) * 2)
+            other = "lb" if i % 2 == 0 else "snapshot_of_la"
+            os.link(dst + "/la", dst + "/" + other)
+            snap_sha = world.sha(dst + "/" + other)
+            rr = world.run_sy([src, dst, "--links", "follow", "-q", "-j%d" % [1, 4][i % 2]], sc, timeout=60)
+            why = []
+            for lnk, ref in (("la", "ra"), ("lb", "rb")):
+                if not os.path.isfile(dst + "/" + lnk) or world.sha(dst + "/" + lnk) != world.sha(src + "/" + ref):
+                    why.append("the copy of the followed link %s does not hold its referent's bytes" % lnk)
+            if other != "lb" and world.sha(dst + "/" + other) != snap_sha:
+                why.append("the other name of la (a snapshot) changed with it")
+            if rr["rc"] != 0:
+                why.append("rc=%s" % rr["rc"])
+            if why:
+                viol.append({"world": "follow-over-linked-pair%d" % i, "why": "; ".join(why), "klass": None})
+            shutil.rmtree(base, ignore_errors=True)
         # (round 4, S1 of seed C13-4's notes) every name is in the destination with the right bytes on its own inode; one carries a
         # whole-second time stamp (tar, an older tool): up to date for the planner -- and still a member of its group
         for i in range(2 if tier == "quick" else 8):
